@@ -1,50 +1,841 @@
-use simple_mdns::sync_discovery::ServiceDiscovery;
-use simple_mdns::InstanceInformation;
-use simrt::{ctl, SimConfig};
-use std::time::Duration;
+#![recursion_limit = "512"]
+//! mdns-sim: N nodes running the real simple-mdns sync services under the deterministic
+//! simulator `simrt`. Decides C13, C14, C15, C16, C20.
+//!
+//! usage:
+//!   mdnssim check <Cxx> [--tier quick|thorough] [--seed N] [--runs N] [--jobs N]
+//!   mdnssim replay <file> [--trace]
+//!   mdnssim worker <Cxx> <verif_seed> <first> <count> <stride>      (internal)
+//!   mdnssim determinism <Cxx> <runs>                                 (event-log digest per run)
+//! exit codes: 0 held (or only known findings), 1 VIOLATION, 2 harness error.
+
+mod model;
+mod runner;
+mod scenario;
+mod store;
+
+use std::collections::{BTreeMap, HashSet};
+use std::io::{BufRead, BufReader, Write};
+use std::path::{Path, PathBuf};
+use std::process::{Command, Stdio};
+use std::time::Instant;
+
+use model::{analyse, Finding, OStats};
+use scenario::{generate, AppOp, NodeKind, Profile, Scenario};
+use serde::{Deserialize, Serialize};
+use simrt::rng::{hash_str, mix};
+
+#[derive(Clone, Debug, Serialize, Deserialize)]
+pub struct Replay {
+    pub property: String,
+    pub signature: String,
+    pub detail: String,
+    pub verif_seed: u64,
+    pub run_index: u64,
+    pub minimised: bool,
+    pub kind: String, // "system" | "store"
+    pub scenario: Option<Scenario>,
+    pub history: Option<store::History>,
+}
+
+fn profile_for(prop: &str, idx: u64) -> Profile {
+    let x = idx % 10;
+    match prop {
+        "C13" => if x < 5 { Profile::Clean } else { Profile::Lossy },
+        "C14" => if x < 6 { Profile::Hostile } else { Profile::Chaos },
+        "C15" => if x < 4 { Profile::Clean } else if x < 8 { Profile::Lossy } else { Profile::Chaos },
+        "C16" => if x < 4 { Profile::Clean } else if x < 7 { Profile::Lossy } else { Profile::Hostile },
+        _ => if x < 3 { Profile::Clean } else if x < 7 { Profile::Lossy } else { Profile::Chaos },
+    }
+}
+
+fn run_seed(verif_seed: u64, prop: &str, idx: u64) -> u64 {
+    mix(verif_seed, mix(hash_str(prop), idx))
+}
+
+#[derive(Default, Serialize, Deserialize, Clone)]
+struct Tally {
+    runs: u64,
+    nontrivial_fps: Vec<u64>,
+    model_states: Vec<u64>,
+    sim_time_ns: u128,
+    steps: u64,
+    switches: u64,
+    threads: u64,
+    sent: u64,
+    delivered: u64,
+    dropped_loss: u64,
+    dropped_partition: u64,
+    dropped_overflow: u64,
+    dropped_closed: u64,
+    duplicated: u64,
+    delayed: u64,
+    payload_faults: [u64; 6],
+    send_errors: u64,
+    recv_interrupts: u64,
+    recv_timeouts: u64,
+    oversleeps: u64,
+    crashes: u64,
+    clock_jumps: u64,
+    stalls: u64,
+    lock_blocks: u64,
+    partitions: u64,
+    step_limit_runs: u64,
+    cut_short_by_other_property: u64,
+    profiles: BTreeMap<String, u64>,
+    ostats: BTreeMap<String, u64>,
+    samples: Vec<serde_json::Value>,
+    store_histories: u64,
+    store_ops: u64,
+    store_queries: u64,
+    store_boundary_hits: u64,
+    store_distinct: Vec<u64>,
+}
+
+fn ostats_map(o: &OStats) -> BTreeMap<String, u64> {
+    let mut m = BTreeMap::new();
+    macro_rules! put { ($($f:ident),*) => { $( m.insert(stringify!($f).to_string(), o.$f); )* } }
+    put!(windows, queries_judged, queries_skipped_inexact, replies_judged, replies_expected_and_seen,
+        silent_expected_and_seen, store_mutated_between_recv_and_lock, writer_waited_for_reader,
+        replies_parse_checked, other_sends_parse_checked, ingests, ingests_fuzzy, ingested_records,
+        ingest_filtered_own, ingest_filtered_foreign, known_exact, known_exact_nonempty, known_safety_only,
+        known_with_expired_entries, discovered_judged, discovered_skipped, dumps_judged, dump_entries,
+        dumps_with_expired, c16_instances, c16_dump_checks, probes_sent, probes_answered, probes_excluded,
+        api_probes, resolver_probes, panics_seen, refresh_queries, truncated_accepted);
+    m
+}
+
+fn nontrivial(prop: &str, o: &OStats) -> bool {
+    match prop {
+        "C13" => o.queries_judged > 0,
+        "C14" => o.windows > 0,
+        "C15" => o.known_exact_nonempty > 0 || o.discovered_judged > 0,
+        "C16" => o.c16_instances > 0 || (o.c16_dump_checks > 0 && o.dump_entries > 0),
+        _ => o.dumps_judged > 0 && o.dump_entries > 0,
+    }
+}
+
+fn scenario_summary(sc: &Scenario) -> serde_json::Value {
+    let nodes: Vec<String> = sc
+        .nodes
+        .iter()
+        .map(|n| match &n.kind {
+            NodeKind::Discovery { service, instance, ttl, channel } => format!("discovery({} @ {}, ttl {}, {} ips, {} ports, {} attrs, channel {}) ops {}", instance.name, service, ttl, instance.ips.len(), instance.ports.len(), instance.attrs.len(), channel, n.script.len()),
+            NodeKind::Responder { ttl } => format!("responder(ttl {}) ops {}", ttl, n.script.len()),
+            NodeKind::Resolver => format!("one-shot resolver ops {}", n.script.len()),
+            NodeKind::RawPeer { port, joined } => format!("raw peer(port {:?}, joined {}) datagrams {}", port, joined, n.script.len()),
+        })
+        .collect();
+    serde_json::json!({"run_seed": sc.seed, "profile": format!("{:?}", sc.profile), "duration_ms": sc.duration_ms, "nodes": nodes, "fault_script": sc.root.iter().map(|(t, s)| format!("{}ms {:?}", t, s)).collect::<Vec<_>>(),
+        "knobs": {"drop_ppm": sc.knobs.drop_ppm, "dup_ppm": sc.knobs.dup_ppm, "corrupt_ppm": sc.knobs.corrupt_ppm, "delay_ppm": sc.knobs.delay_ppm, "latency_ns": sc.knobs.base_latency_ns, "jitter_ns": sc.knobs.jitter_ns, "send_err_ppm": sc.knobs.send_err_ppm}})
+}
+
+/// One system run: returns findings for all properties plus the tally contribution.
+fn one_run(prop: &str, sc: &Scenario, tally: &mut Tally) -> Result<Vec<Finding>, String> {
+    let out = runner::run(sc);
+    let an = analyse(sc, &out);
+    if let Some(e) = an.harness_error {
+        return Err(e);
+    }
+    let s = &out.res.stats;
+    tally.runs += 1;
+    tally.sim_time_ns += out.res.end_time_ns as u128;
+    tally.steps += s.steps;
+    tally.switches += s.context_switches;
+    tally.threads += s.threads;
+    tally.sent += s.sent;
+    tally.delivered += s.delivered;
+    tally.dropped_loss += s.dropped_loss;
+    tally.dropped_partition += s.dropped_partition;
+    tally.dropped_overflow += s.dropped_overflow;
+    tally.dropped_closed += s.dropped_closed;
+    tally.duplicated += s.duplicated;
+    tally.delayed += s.delayed;
+    for i in 0..6 {
+        tally.payload_faults[i] += s.payload_faults[i];
+    }
+    tally.send_errors += s.send_errors;
+    tally.recv_interrupts += s.recv_interrupts;
+    tally.recv_timeouts += s.recv_timeouts;
+    tally.oversleeps += s.oversleeps;
+    tally.crashes += s.crashes;
+    tally.clock_jumps += s.clock_jumps;
+    tally.stalls += s.stalls;
+    tally.lock_blocks += s.lock_blocks;
+    tally.partitions += sc.root.iter().filter(|(_, st)| matches!(st, scenario::RootStep::Partition { .. })).count() as u64;
+    if an.stats.cut_short {
+        tally.step_limit_runs += 1;
+    }
+    *tally.profiles.entry(format!("{:?}", sc.profile)).or_default() += 1;
+    for (k, v) in ostats_map(&an.stats) {
+        *tally.ostats.entry(k).or_default() += v;
+    }
+    if nontrivial(prop, &an.stats) {
+        tally.nontrivial_fps.push(out.res.fingerprint);
+    }
+    tally.model_states.extend(an.model_states.iter().copied());
+    if prop != "C14" && an.findings.iter().any(|f| f.prop == "C14" && f.sig.starts_with("panic")) {
+        tally.cut_short_by_other_property += 1;
+    }
+    if tally.samples.len() < 2 && nontrivial(prop, &an.stats) {
+        let mut v = scenario_summary(sc);
+        let excerpt: Vec<String> = out.res.trace.iter().skip(out.res.trace.len() / 3).take(14).map(|e| format!("#{} t={}ns tid={} node={} {:?}", e.seq, e.t, e.tid, e.node as i64, e.kind)).collect();
+        v["trace_excerpt"] = serde_json::json!(excerpt);
+        v["events"] = serde_json::json!(out.res.trace.len());
+        tally.samples.push(v);
+    }
+    Ok(an.findings)
+}
+
+#[derive(Serialize, Deserialize)]
+enum WorkerMsg {
+    Finding { run_index: u64, prop: String, sig: String, detail: String, scenario: Option<Scenario>, history: Option<store::History> },
+    Tally(Tally),
+    Error(String),
+}
+
+fn worker(prop: &str, verif_seed: u64, first: u64, count: u64, stride: u64, store_runs: u64) {
+    let mut tally = Tally::default();
+    let stdout = std::io::stdout();
+    let mut seen: HashSet<String> = HashSet::new();
+    let mut i = first;
+    let mut done = 0;
+    while done < count {
+        let seed = run_seed(verif_seed, prop, i);
+        let sc = generate(seed, prop, profile_for(prop, i));
+        match one_run(prop, &sc, &mut tally) {
+            Ok(fds) => {
+                for f in fds {
+                    if f.prop != prop {
+                        continue;
+                    }
+                    if seen.insert(f.sig.clone()) {
+                        let m = WorkerMsg::Finding { run_index: i, prop: f.prop.to_string(), sig: f.sig, detail: f.detail, scenario: Some(sc.clone()), history: None };
+                        writeln!(stdout.lock(), "{}", serde_json::to_string(&m).unwrap()).unwrap();
+                    }
+                }
+            }
+            Err(e) => {
+                let m = WorkerMsg::Error(format!("run {} (seed {}): {}", i, seed, e));
+                writeln!(stdout.lock(), "{}", serde_json::to_string(&m).unwrap()).unwrap();
+            }
+        }
+        i += stride;
+        done += 1;
+    }
+    // store-level histories (C20 layer A, C13 core) share the worker
+    if store_runs > 0 {
+        let mut j = first;
+        let mut d = 0;
+        while d < store_runs {
+            let seed = run_seed(verif_seed, &format!("{}-store", prop), j);
+            let h = store::generate(seed, prop);
+            match store::run(&h) {
+                Ok(rep) => {
+                    tally.store_histories += 1;
+                    tally.store_ops += rep.ops;
+                    tally.store_queries += rep.queries;
+                    tally.store_boundary_hits += rep.boundary_hits;
+                    if rep.queries > 0 {
+                        tally.store_distinct.push(rep.fingerprint);
+                    }
+                    if tally.samples.len() < 3 && rep.queries > 2 {
+                        tally.samples.push(serde_json::json!({"store_history": h.ops.iter().take(12).map(|o| format!("{:?}", o)).collect::<Vec<_>>()}));
+                    }
+                    for f in rep.findings {
+                        if f.prop == prop && seen.insert(f.sig.clone()) {
+                            let m = WorkerMsg::Finding { run_index: j, prop: f.prop.to_string(), sig: f.sig, detail: f.detail, scenario: None, history: Some(h.clone()) };
+                            writeln!(stdout.lock(), "{}", serde_json::to_string(&m).unwrap()).unwrap();
+                        }
+                    }
+                }
+                Err(e) => {
+                    let m = WorkerMsg::Error(format!("store history {} (seed {}): {}", j, seed, e));
+                    writeln!(stdout.lock(), "{}", serde_json::to_string(&m).unwrap()).unwrap();
+                }
+            }
+            j += stride;
+            d += 1;
+        }
+    }
+    writeln!(stdout.lock(), "{}", serde_json::to_string(&WorkerMsg::Tally(tally)).unwrap()).unwrap();
+}
+
+fn reproduces(rp: &Replay) -> Result<Option<String>, String> {
+    match rp.kind.as_str() {
+        "store" => {
+            let rep = store::run(rp.history.as_ref().ok_or("no history")?)?;
+            Ok(rep.findings.into_iter().find(|f| f.prop == rp.property && f.sig == rp.signature).map(|f| f.detail))
+        }
+        _ => {
+            let sc = rp.scenario.as_ref().ok_or("no scenario")?;
+            let mut t = Tally::default();
+            let fds = one_run(&rp.property, sc, &mut t)?;
+            Ok(fds.into_iter().find(|f| f.prop == rp.property && f.sig == rp.signature).map(|f| f.detail))
+        }
+    }
+}
+
+fn minimise(rp: &Replay) -> Replay {
+    let mut cur = rp.clone();
+    let still = |c: &Replay| matches!(reproduces(c), Ok(Some(_)));
+    if !still(&cur) {
+        return cur;
+    }
+    if cur.kind == "store" {
+        let mut progress = true;
+        while progress {
+            progress = false;
+            let mut i = 0;
+            while i < cur.history.as_ref().unwrap().ops.len() {
+                let mut c = cur.clone();
+                c.history.as_mut().unwrap().ops.remove(i);
+                if still(&c) {
+                    cur = c;
+                    progress = true;
+                } else {
+                    i += 1;
+                }
+            }
+        }
+    } else {
+        let mut budget = 400;
+        let mut progress = true;
+        while progress && budget > 0 {
+            progress = false;
+            // empty whole nodes (keeping the numbering)
+            let n_nodes = cur.scenario.as_ref().unwrap().nodes.len();
+            for ni in 0..n_nodes {
+                let sc = cur.scenario.as_ref().unwrap();
+                if sc.nodes[ni].script.is_empty() && matches!(sc.nodes[ni].kind, NodeKind::RawPeer { .. }) {
+                    continue;
+                }
+                let mut c = cur.clone();
+                let n = &mut c.scenario.as_mut().unwrap().nodes[ni];
+                n.kind = NodeKind::RawPeer { port: None, joined: false };
+                n.script.clear();
+                budget -= 1;
+                if still(&c) {
+                    cur = c;
+                    progress = true;
+                }
+            }
+            // drop fault steps
+            let mut i = 0;
+            while i < cur.scenario.as_ref().unwrap().root.len() && budget > 0 {
+                let mut c = cur.clone();
+                c.scenario.as_mut().unwrap().root.remove(i);
+                budget -= 1;
+                if still(&c) {
+                    cur = c;
+                    progress = true;
+                } else {
+                    i += 1;
+                }
+            }
+            // drop script steps
+            for ni in 0..n_nodes {
+                let mut i = 0;
+                while i < cur.scenario.as_ref().unwrap().nodes[ni].script.len() && budget > 0 {
+                    let mut c = cur.clone();
+                    c.scenario.as_mut().unwrap().nodes[ni].script.remove(i);
+                    budget -= 1;
+                    if still(&c) {
+                        cur = c;
+                        progress = true;
+                    } else {
+                        i += 1;
+                    }
+                }
+            }
+            // simplify knobs
+            for k in 0..8 {
+                let mut c = cur.clone();
+                let kn = &mut c.scenario.as_mut().unwrap().knobs;
+                let changed = match k {
+                    0 if kn.drop_ppm != 0 => { kn.drop_ppm = 0; true }
+                    1 if kn.dup_ppm != 0 => { kn.dup_ppm = 0; true }
+                    2 if kn.corrupt_ppm != 0 => { kn.corrupt_ppm = 0; true }
+                    3 if kn.delay_ppm != 0 => { kn.delay_ppm = 0; true }
+                    4 if kn.send_err_ppm != 0 => { kn.send_err_ppm = 0; true }
+                    5 if kn.recv_intr_ppm != 0 => { kn.recv_intr_ppm = 0; true }
+                    6 if kn.oversleep_max_ns != 0 => { kn.oversleep_max_ns = 0; true }
+                    7 if kn.step_jitter_ns != 1000 => { kn.step_jitter_ns = 1000; true }
+                    _ => false,
+                };
+                if changed {
+                    budget -= 1;
+                    if still(&c) {
+                        cur = c;
+                        progress = true;
+                    }
+                }
+            }
+            // shrink records inside SendMsg ops
+            for ni in 0..n_nodes {
+                for oi in 0..cur.scenario.as_ref().unwrap().nodes[ni].script.len() {
+                    loop {
+                        let mut c = cur.clone();
+                        let mut changed = false;
+                        if let AppOp::SendMsg { msg, .. } = &mut c.scenario.as_mut().unwrap().nodes[ni].script[oi].1 {
+                            if msg.additional.pop().is_some() || msg.answers.pop().is_some() || (msg.questions.len() > 1 && msg.questions.pop().is_some()) {
+                                changed = true;
+                            }
+                        }
+                        if !changed || budget == 0 {
+                            break;
+                        }
+                        budget -= 1;
+                        if still(&c) {
+                            cur = c;
+                            progress = true;
+                        } else {
+                            break;
+                        }
+                    }
+                }
+            }
+        }
+    }
+    cur.minimised = true;
+    if let Ok(Some(d)) = reproduces(&cur) {
+        cur.detail = d;
+    }
+    cur
+}
+
+#[derive(Deserialize)]
+struct KnownFinding {
+    status: String,
+    property: String,
+    #[serde(default)]
+    signature_prefix: String,
+    #[serde(default)]
+    what: String,
+}
+
+fn load_known(prop: &str) -> Vec<KnownFinding> {
+    let Ok(s) = std::fs::read_to_string("/verif/known_findings.json") else { return vec![] };
+    let all: Vec<KnownFinding> = match serde_json::from_str(&s) {
+        Ok(v) => v,
+        Err(e) => {
+            eprintln!("harness error: known_findings.json unreadable: {}", e);
+            std::process::exit(2);
+        }
+    };
+    all.into_iter().filter(|k| k.property == prop && k.status == "known" && !k.signature_prefix.is_empty()).collect()
+}
+
+fn sanitize(s: &str) -> String {
+    let t: String = s.chars().map(|c| if c.is_ascii_alphanumeric() || c == '-' { c } else { '_' }).collect();
+    t.chars().take(100).collect()
+}
+
+struct TierCfg {
+    runs: u64,
+    store_runs: u64,
+}
+
+fn tier_cfg(prop: &str, tier: &str) -> TierCfg {
+    let thorough = tier == "thorough";
+    let (runs, store) = match prop {
+        "C13" => (if thorough { 120_000 } else { 6_000 }, if thorough { 400_000 } else { 20_000 }),
+        "C14" => (if thorough { 160_000 } else { 8_000 }, 0),
+        "C15" => (if thorough { 120_000 } else { 6_000 }, 0),
+        "C16" => (if thorough { 100_000 } else { 5_000 }, 0),
+        _ => (if thorough { 100_000 } else { 5_000 }, if thorough { 2_000_000 } else { 100_000 }),
+    };
+    TierCfg { runs, store_runs: store }
+}
+
+fn check(prop: &str, tier: &str, verif_seed: u64, runs_override: Option<u64>, jobs: usize) -> i32 {
+    let mut cfg = tier_cfg(prop, tier);
+    if let Some(r) = runs_override {
+        cfg.store_runs = if cfg.store_runs > 0 { (cfg.store_runs * r / cfg.runs.max(1)).max(1) } else { 0 };
+        cfg.runs = r;
+    }
+    println!("mdns-sim property={} tier={} VERIF_SEED={} system_runs={} store_histories={} jobs={}", prop, tier, verif_seed, cfg.runs, cfg.store_runs, jobs);
+    let t0 = Instant::now();
+    let exe = std::env::current_exe().expect("current_exe");
+    let mut children = Vec::new();
+    for j in 0..jobs as u64 {
+        let count = cfg.runs / jobs as u64 + if j < cfg.runs % jobs as u64 { 1 } else { 0 };
+        let scount = cfg.store_runs / jobs as u64 + if j < cfg.store_runs % jobs as u64 { 1 } else { 0 };
+        let child = Command::new(&exe)
+            .args(["worker", prop, &verif_seed.to_string(), &j.to_string(), &count.to_string(), &jobs.to_string(), &scount.to_string()])
+            .stdout(Stdio::piped())
+            .stderr(Stdio::inherit())
+            .spawn()
+            .expect("spawn worker");
+        children.push(child);
+    }
+    let mut tally = Tally::default();
+    let mut found: BTreeMap<String, Replay> = BTreeMap::new();
+    let mut errors: Vec<String> = Vec::new();
+    // drain every worker concurrently (a full pipe must never stall a worker)
+    let (tx, rx) = std::sync::mpsc::channel::<(usize, Option<String>)>();
+    let mut readers = Vec::new();
+    for (ci, ch) in children.iter_mut().enumerate() {
+        let out = ch.stdout.take().unwrap();
+        let tx = tx.clone();
+        readers.push(std::thread::spawn(move || {
+            for line in BufReader::new(out).lines() {
+                let Ok(line) = line else { break };
+                let _ = tx.send((ci, Some(line)));
+            }
+            let _ = tx.send((ci, None));
+        }));
+    }
+    drop(tx);
+    let n_children = children.len();
+    let mut got_tally = vec![false; n_children];
+    let mut open = n_children;
+    let limit = std::time::Duration::from_secs(if tier == "thorough" { 3 * 3600 } else { 900 });
+    while open > 0 {
+        let msg = match rx.recv_timeout(std::time::Duration::from_secs(5)) {
+            Ok(m) => m,
+            Err(std::sync::mpsc::RecvTimeoutError::Timeout) => {
+                if t0.elapsed() > limit {
+                    for ch in children.iter_mut() {
+                        let _ = ch.kill();
+                    }
+                    errors.push(format!("workers exceeded the wall-clock limit of {:?} (simulator stuck?)", limit));
+                    break;
+                }
+                continue;
+            }
+            Err(_) => break,
+        };
+        match msg {
+            (_, None) => open -= 1,
+            (ci, Some(line)) => match serde_json::from_str::<WorkerMsg>(&line) {
+                Ok(WorkerMsg::Finding { run_index, prop: p, sig, detail, scenario, history }) => {
+                    let rp = Replay { property: p, signature: sig.clone(), detail, verif_seed, run_index, minimised: false, kind: if history.is_some() { "store".into() } else { "system".into() }, scenario, history };
+                    match found.get(&sig) {
+                        Some(old) if (old.kind.as_str(), old.run_index) <= (rp.kind.as_str(), rp.run_index) => {}
+                        _ => {
+                            found.insert(sig, rp);
+                        }
+                    }
+                }
+                Ok(WorkerMsg::Tally(t)) => {
+                    got_tally[ci] = true;
+                    merge(&mut tally, t);
+                }
+                Ok(WorkerMsg::Error(e)) => errors.push(e),
+                Err(e) => errors.push(format!("unreadable worker output: {} ({})", e, &line[..line.len().min(120)])),
+            },
+        }
+    }
+    for (ci, mut ch) in children.into_iter().enumerate() {
+        let status = ch.wait().expect("wait");
+        if !status.success() || !got_tally[ci] {
+            errors.push(format!("worker {} exited abnormally: {:?}", ci, status));
+        }
+    }
+    for r in readers {
+        let _ = r.join();
+    }
+    let wall = t0.elapsed().as_secs_f64();
+    if !errors.is_empty() {
+        for e in errors.iter().take(10) {
+            eprintln!("harness error: {}", e);
+        }
+        return 2;
+    }
+
+    let known = load_known(prop);
+    let dir = PathBuf::from(format!("/verif/replays/{}", prop));
+    let _ = std::fs::create_dir_all(&dir);
+    let mut violations = 0;
+    let mut known_hits = 0;
+    let mut lines = Vec::new();
+    for (sig, rp) in &found {
+        let min = minimise(rp);
+        let path = dir.join(format!("{}.json", sanitize(sig)));
+        std::fs::write(&path, serde_json::to_string_pretty(&min).unwrap()).expect("write replay");
+        // fresh-process replay must reproduce before anything is reported
+        let st = Command::new(&exe).args(["replay", path.to_str().unwrap(), "--quiet"]).stdout(Stdio::null()).status().expect("replay");
+        if st.code() != Some(1) {
+            eprintln!("harness error: replay {} does not reproduce {} in a fresh process (exit {:?})", path.display(), sig, st.code());
+            return 2;
+        }
+        if let Some(k) = known.iter().find(|k| sig.starts_with(&k.signature_prefix)) {
+            known_hits += 1;
+            lines.push(format!("KNOWN-FINDING: property={} {} [{}] replay={}", prop, k.what, sig, path.display()));
+        } else {
+            violations += 1;
+            lines.push(format!("VIOLATION property={} replay={}", prop, path.display()));
+            lines.push(format!("  signature: {}", sig));
+            lines.push(format!("  detail: {}", min.detail));
+        }
+    }
+
+    // ---- evidence
+    let distinct: HashSet<u64> = tally.nontrivial_fps.iter().copied().chain(tally.store_distinct.iter().copied()).collect();
+    let states: HashSet<u64> = tally.model_states.iter().copied().collect();
+    let evaluations = tally.runs + tally.store_histories;
+    let rule = match prop {
+        "C13" => "one evaluation = one simulated run (topology, application scripts, raw-peer queries, fault script, scheduler/hash/net seeds all derived from the run seed) or one store-level history; a run is non-trivial when at least one query was judged against the model state taken at the listener's read-acquire; distinct = distinct schedule fingerprints (hash of the ordered sequence of (thread, scheduling point, lock/socket/datagram id)) among non-trivial runs plus distinct store-history fingerprints",
+        "C14" => "one evaluation = one simulated run in the hostile or chaos profile; non-trivial when at least one datagram was dequeued by a service listener; distinct = distinct schedule fingerprints among those",
+        "C15" => "one evaluation = one simulated run; non-trivial when get_known_services was compared exactly with a non-empty reference cache or an on_discovery value was compared; distinct = distinct schedule fingerprints among those",
+        "C16" => "one evaluation = one simulated run; non-trivial when at least one reported InstanceInformation was re-built in another insertion order and compared by Eq/Hash/HashSet, or a store dump was cross-checked against borrowed parses; distinct = distinct schedule fingerprints among those",
+        _ => "one evaluation = one simulated run or one store-level history (add/re-add/remove/clear/advance/clock-jump/query); a run is non-trivial when a store dump was compared with the reference cache; distinct = distinct schedule fingerprints among non-trivial runs plus distinct store-history fingerprints",
+    };
+    let ev = serde_json::json!({
+        "property_id": prop,
+        "tier": if tier == "thorough" { "thorough" } else { "quick" },
+        "seed": verif_seed,
+        "level": "exploration",
+        "wall_s": wall,
+        "violations": violations,
+        "coverage": {
+            "evaluations": evaluations,
+            "distinct_nontrivial": distinct.len(),
+            "rule": rule,
+            "samples": tally.samples,
+            "simulated_runs": tally.runs,
+            "simulated_runs_per_hour": (tally.runs as f64 / wall * 3600.0) as u64,
+            "store_level_histories": tally.store_histories,
+            "store_level_ops": tally.store_ops,
+            "store_level_queries_compared": tally.store_queries,
+            "store_level_expiry_boundary_hits": tally.store_boundary_hits,
+            "simulated_time_s": (tally.sim_time_ns / 1_000_000_000) as u64,
+            "scheduling_steps": tally.steps,
+            "context_switches": tally.switches,
+            "simulated_threads": tally.threads,
+            "distinct_model_states": states.len(),
+            "profiles": tally.profiles,
+            "faults_fired": {
+                "datagrams_sent": tally.sent, "delivered": tally.delivered, "dropped_loss": tally.dropped_loss,
+                "dropped_partition": tally.dropped_partition, "dropped_rcvbuf_overflow": tally.dropped_overflow,
+                "dropped_socket_closed": tally.dropped_closed, "duplicated": tally.duplicated, "delayed_reordered": tally.delayed,
+                "payload_truncate": tally.payload_faults[0], "payload_bitflip": tally.payload_faults[1], "payload_byte_plus": tally.payload_faults[2],
+                "payload_byte_minus": tally.payload_faults[3], "payload_zero_length": tally.payload_faults[4], "payload_garbage": tally.payload_faults[5],
+                "send_syscall_errors": tally.send_errors, "recv_interrupted": tally.recv_interrupts, "recv_timeouts": tally.recv_timeouts,
+                "oversleeps": tally.oversleeps, "node_crashes": tally.crashes, "clock_jumps": tally.clock_jumps, "node_stalls": tally.stalls,
+                "partitions": tally.partitions, "lock_contention_blocks": tally.lock_blocks,
+            },
+            "oracle_probes": tally.ostats,
+            "runs_hitting_step_limit": tally.step_limit_runs,
+            "runs_cut_short_by_another_property": tally.cut_short_by_other_property,
+            "known_findings_hit": known_hits,
+            "components": {
+                "real": ["simple_mdns::sync_discovery::{ServiceDiscovery, SimpleMdnsResponder, OneShotMdnsResolver} (real loops, locks, sleeps)", "ResourceRecordManager", "build_reply", "InstanceInformation", "simple_dns codec", "radix_trie", "std::sync::mpsc", "std RwLock poisoning"],
+                "simulated": ["thread scheduling (baton passing, seeded)", "RwLock admission", "thread::sleep / Instant::now (virtual clock, per-node offsets)", "UDP multicast + unicast sockets with fault injection", "hash seeds (getrandom interposition)", "node crash/restart, stalls, clock jumps"],
+                "stubs": ["socket_helper (simulated sockets with the same bind/join/time-out semantics)"],
+                "not_run": ["async_discovery (tokio variants)"],
+            },
+        },
+        "assumptions": [
+            "code between two scheduling points runs atomically (all cross-thread state of simple-mdns is behind the RwLock, the sockets and an mpsc sender)",
+            "reference model and refdns reader are trusted; exact comparisons only for intact datagrams from well-formed senders, deliberately relaxed (optional entries) for corrupted or hostile ones",
+            "at the single instant now == expiry either answer is accepted",
+            "sync implementations only; the tokio variants are not simulated",
+        ],
+    });
+    let _ = std::fs::create_dir_all("/verif/evidence");
+    std::fs::write(format!("/verif/evidence/{}.json", prop), serde_json::to_string_pretty(&ev).unwrap()).expect("write evidence");
+    for l in &lines {
+        println!("{}", l);
+    }
+    println!("mdns-sim {}: {} runs + {} store histories, {} distinct non-trivial, {} model states, {} violation signature(s), {} known, {:.1}s ({:.0} runs/s)", prop, tally.runs, tally.store_histories, distinct.len(), states.len(), violations, known_hits, wall, tally.runs as f64 / wall);
+    if distinct.len() < 20 {
+        eprintln!("harness error: insufficient coverage ({} distinct non-trivial runs)", distinct.len());
+        return 2;
+    }
+    if violations > 0 { 1 } else { 0 }
+}
+
+fn merge(a: &mut Tally, b: Tally) {
+    a.runs += b.runs;
+    a.nontrivial_fps.extend(b.nontrivial_fps);
+    a.model_states.extend(b.model_states);
+    a.sim_time_ns += b.sim_time_ns;
+    a.steps += b.steps;
+    a.switches += b.switches;
+    a.threads += b.threads;
+    a.sent += b.sent;
+    a.delivered += b.delivered;
+    a.dropped_loss += b.dropped_loss;
+    a.dropped_partition += b.dropped_partition;
+    a.dropped_overflow += b.dropped_overflow;
+    a.dropped_closed += b.dropped_closed;
+    a.duplicated += b.duplicated;
+    a.delayed += b.delayed;
+    for i in 0..6 {
+        a.payload_faults[i] += b.payload_faults[i];
+    }
+    a.send_errors += b.send_errors;
+    a.recv_interrupts += b.recv_interrupts;
+    a.recv_timeouts += b.recv_timeouts;
+    a.oversleeps += b.oversleeps;
+    a.crashes += b.crashes;
+    a.clock_jumps += b.clock_jumps;
+    a.stalls += b.stalls;
+    a.lock_blocks += b.lock_blocks;
+    a.partitions += b.partitions;
+    a.step_limit_runs += b.step_limit_runs;
+    a.cut_short_by_other_property += b.cut_short_by_other_property;
+    for (k, v) in b.profiles {
+        *a.profiles.entry(k).or_default() += v;
+    }
+    for (k, v) in b.ostats {
+        *a.ostats.entry(k).or_default() += v;
+    }
+    if a.samples.len() < 4 {
+        a.samples.extend(b.samples.into_iter().take(1));
+    }
+    a.store_histories += b.store_histories;
+    a.store_ops += b.store_ops;
+    a.store_queries += b.store_queries;
+    a.store_boundary_hits += b.store_boundary_hits;
+    a.store_distinct.extend(b.store_distinct);
+}
+
+fn replay(path: &str, quiet: bool, trace: bool) -> i32 {
+    let s = match std::fs::read_to_string(path) {
+        Ok(s) => s,
+        Err(e) => {
+            eprintln!("harness error: cannot read {}: {}", path, e);
+            return 2;
+        }
+    };
+    let rp: Replay = match serde_json::from_str(&s) {
+        Ok(r) => r,
+        Err(e) => {
+            eprintln!("harness error: bad replay file: {}", e);
+            return 2;
+        }
+    };
+    if trace {
+        if let Some(sc) = &rp.scenario {
+            let out = runner::run(sc);
+            for e in &out.res.trace {
+                println!("#{} t={} lt={} tid={}({}) node={} {:?}", e.seq, e.t, e.lt, e.tid, out.res.thread_names[e.tid as usize], e.node as i64, e.kind);
+            }
+            for (i, m) in out.res.marks.iter().enumerate() {
+                println!("mark {} = {}", i, m);
+            }
+            for p in &out.res.panics {
+                println!("panic {:?}", p);
+            }
+            for o in &out.obs {
+                println!("obs {:?}", o);
+            }
+            let an = analyse(sc, &out);
+            for f in &an.findings {
+                println!("finding {} {} :: {}", f.prop, f.sig, f.detail);
+            }
+        }
+    }
+    match reproduces(&rp) {
+        Ok(Some(detail)) => {
+            if !quiet {
+                println!("  signature: {}", rp.signature);
+                println!("  detail: {}", detail);
+            }
+            println!("VIOLATION property={} replay={}", rp.property, path);
+            1
+        }
+        Ok(None) => {
+            println!("not reproduced: signature {} absent", rp.signature);
+            0
+        }
+        Err(e) => {
+            eprintln!("harness error: {}", e);
+            2
+        }
+    }
+}
+
+fn determinism(prop: &str, runs: u64, verif_seed: u64) {
+    // print one digest line per run: the full event log (every scheduling decision, every
+    // datagram's bytes, every observation) hashed
+    for i in 0..runs {
+        let seed = run_seed(verif_seed, prop, i);
+        let sc = generate(seed, prop, profile_for(prop, i));
+        let out = runner::run(&sc);
+        let mut h = 0xcbf2_9ce4_8422_2325u64;
+        let mut feed = |s: &str| {
+            for b in s.as_bytes() {
+                h ^= *b as u64;
+                h = h.wrapping_mul(0x0000_0100_0000_01B3);
+            }
+        };
+        for e in &out.res.trace {
+            feed(&format!("{:?}", e));
+        }
+        for d in &out.res.dgrams {
+            feed(&format!("{:?}", d));
+        }
+        for o in &out.obs {
+            feed(&format!("{:?}", o));
+        }
+        let an = analyse(&sc, &out);
+        for f in &an.findings {
+            feed(&format!("{:?}", f));
+        }
+        println!("{} {} {:016x} events={} outcome={:?}", prop, i, h, out.res.trace.len(), out.res.outcome);
+    }
+}
 
 fn main() {
     simrt::hashseed::ensure_linked();
-    let seed: u64 = std::env::args().nth(1).and_then(|s| s.parse().ok()).unwrap_or(1);
-    let mut cfg = SimConfig::default();
-    cfg.sched_seed = seed;
-    cfg.hash_seed = seed;
-    cfg.net_seed = seed;
-    let t0 = std::time::Instant::now();
-    let res = simrt::run(cfg, || {
-        let a = ctl::on_node(0, || {
-            ServiceDiscovery::new(
-                InstanceInformation::new("a".into())
-                    .with_socket_address("192.168.1.22:8090".parse().unwrap())
-                    .with_attribute("k".into(), Some("v".into())),
-                "_srv._tcp.local",
-                60,
-            )
-            .unwrap()
-        });
-        ctl::sleep(Duration::from_millis(500));
-        let b = ctl::on_node(1, || {
-            ServiceDiscovery::new(
-                InstanceInformation::new("b".into()).with_socket_address("192.168.1.23:8091".parse().unwrap()),
-                "_srv._tcp.local",
-                60,
-            )
-            .unwrap()
-        });
-        ctl::sleep(Duration::from_secs(2));
-        let ka = ctl::on_node(0, || a.get_known_services());
-        let kb = ctl::on_node(1, || b.get_known_services());
-        ctl::mark(format!("a knows {:?}", ka));
-        ctl::mark(format!("b knows {:?}", kb));
-        ctl::sleep(Duration::from_secs(100));
-        let ka = ctl::on_node(0, || a.get_known_services());
-        ctl::mark(format!("later a knows {:?}", ka));
-    });
-    println!("outcome {:?} wall {:?} steps {} switches {} events {} dgrams {} end {}s fp {:x}", res.outcome, t0.elapsed(), res.stats.steps, res.stats.context_switches, res.trace.len(), res.dgrams.len(), res.end_time_ns as f64/1e9, res.fingerprint);
-    for m in &res.marks { println!("MARK {}", m); }
-    for p in &res.panics { println!("PANIC {:?}", p); }
-    if std::env::var("DUMP").is_ok() { for e in &res.trace { println!("{:?}", e); } for d in &res.dgrams { println!("{:?}", d); } }
-    println!("getrandom calls {}", simrt::hashseed::ensure_linked());
+    let args: Vec<String> = std::env::args().collect();
+    if args.len() < 3 {
+        eprintln!("usage: mdnssim check <C13|C14|C15|C16|C20> [--tier quick|thorough] [--seed N] [--runs N] [--jobs N] | replay <file> [--trace] | determinism <prop> <runs>");
+        std::process::exit(2);
+    }
+    match args[1].as_str() {
+        "worker" => {
+            let prop = &args[2];
+            let vs: u64 = args[3].parse().unwrap();
+            let first: u64 = args[4].parse().unwrap();
+            let count: u64 = args[5].parse().unwrap();
+            let stride: u64 = args[6].parse().unwrap();
+            let store_runs: u64 = args.get(7).and_then(|s| s.parse().ok()).unwrap_or(0);
+            worker(prop, vs, first, count, stride, store_runs);
+        }
+        "replay" => {
+            let quiet = args.iter().any(|a| a == "--quiet");
+            let trace = args.iter().any(|a| a == "--trace");
+            std::process::exit(replay(&args[2], quiet, trace));
+        }
+        "determinism" => {
+            let runs: u64 = args[3].parse().unwrap();
+            let vs: u64 = std::env::var("VERIF_SEED").ok().and_then(|s| s.parse().ok()).unwrap_or(1);
+            determinism(&args[2], runs, vs);
+        }
+        "check" => {
+            let prop = args[2].clone();
+            if !["C13", "C14", "C15", "C16", "C20"].contains(&prop.as_str()) {
+                eprintln!("mdnssim serves C13 C14 C15 C16 C20");
+                std::process::exit(2);
+            }
+            let mut tier = std::env::var("VERIF_TIER").unwrap_or_else(|_| "quick".into());
+            let mut seed: u64 = std::env::var("VERIF_SEED").ok().and_then(|s| s.parse().ok()).unwrap_or(1);
+            let mut runs = None;
+            let mut jobs: usize = std::thread::available_parallelism().map(|n| n.get()).unwrap_or(8).min(16);
+            let mut i = 3;
+            while i < args.len() {
+                match args[i].as_str() {
+                    "--tier" => { tier = args[i + 1].clone(); i += 1; }
+                    "--seed" => { seed = args[i + 1].parse().expect("seed"); i += 1; }
+                    "--runs" => { runs = Some(args[i + 1].parse().expect("runs")); i += 1; }
+                    "--jobs" => { jobs = args[i + 1].parse().expect("jobs"); i += 1; }
+                    _ => {}
+                }
+                i += 1;
+            }
+            std::process::exit(check(&prop, &tier, seed, runs, jobs));
+        }
+        _ => {
+            eprintln!("unknown command");
+            std::process::exit(2);
+        }
+    }
 }
+
 #[allow(dead_code)]
-fn unused() {}
+fn _unused(_: &Path) {}
